@@ -101,6 +101,13 @@ CHECKS = {
             'results compared position by position: groups (un-renamed) exact, discrete score entries exact, correlations '
             'equal, impact-based entries scaled; exact-tie panels are handled by a tie guard; thorough runs under three '
             'PYTHONHASHSEEDs.', '§5 C12'),
+    'C05': ('two-sided differential monitor (design-side closed form vs analysis-side TBR posterior) with an independent numpy referee; metamorphic pairs',
+            'For generated pre-period series and parameters (n 3..120, n_test 1..60, sig / power in (0.01, 0.995), flevel up '
+            'to 0.9995, |corr| 0.3..0.9999) the real TBRMMDiagnostics.required_impact is compared with (t_sig + t_pow) x the '
+            'scale the real tbr.TBR assigns to an experiment constructed with the planning displacement, and TBR.summary on '
+            'the frame carrying exactly that lift must estimate it with lower bound t_pow x scale; an independent closed form '
+            'attributes disagreements; unit scaling (2^k exact), level shift, monotonicity and sign symmetry in the '
+            'correlation are checked as run pairs.', '§5 C05'),
 }
 
 NOT_YET = {}
